@@ -69,39 +69,14 @@ func handleZADD(params internal.HandlerFuncParams) ([]byte, error) {
 		if i%2 != 0 {
 			continue
 		}
-		score := internal.AdaptType(params.Command[membersStartIndex:][i])
-		switch score.(type) {
-		default:
+		score, err := parseScore(params.Command[membersStartIndex:][i])
+		if err != nil {
 			return nil, errors.New("invalid score in score/member list")
-		case string:
-			var s float64
-			if strings.ToLower(score.(string)) == "-inf" {
-				s = math.Inf(-1)
-				members = append(members, MemberParam{
-					Value: Value(params.Command[membersStartIndex:][i+1]),
-					Score: Score(s),
-				})
-			}
-			if strings.ToLower(score.(string)) == "+inf" {
-				s = math.Inf(1)
-				members = append(members, MemberParam{
-					Value: Value(params.Command[membersStartIndex:][i+1]),
-					Score: Score(s),
-				})
-			}
-		case float64:
-			s, _ := score.(float64)
-			members = append(members, MemberParam{
-				Value: Value(params.Command[membersStartIndex:][i+1]),
-				Score: Score(s),
-			})
-		case int:
-			s, _ := score.(int)
-			members = append(members, MemberParam{
-				Value: Value(params.Command[membersStartIndex:][i+1]),
-				Score: Score(s),
-			})
 		}
+		members = append(members, MemberParam{
+			Value: Value(params.Command[membersStartIndex:][i+1]),
+			Score: score,
+		})
 	}
 
 	// Parse options using membersStartIndex as the upper limit
